@@ -704,7 +704,7 @@ fn main() {
         rep.finish();
     }
     *CHILD.lock().unwrap() = Some(child.to_str().unwrap().to_string());
-    let wait = Duration::from_secs(3);
+    let wait = Duration::from_secs(8);
     if let Some(path) = &args.replay {
         let doc: serde_json::Value = serde_json::from_str(&std::fs::read_to_string(path).expect("replay file")).expect("json");
         let r = &doc["replay"];
